@@ -1130,6 +1130,22 @@ func ruleC20TreeCheck(c *Ctx) {
 			}
 		}
 		c.R.Check(rejects, rule, core.FuncName(fn)+":second-visit-rejected", c.pos(lk), "a schema already in the seen table makes the structure check fail", "a second visit of the same *Schema no longer fails the structure check: shared subschemas (original + clone aliasing, cycles) are accepted and a cycle recurses without bound")
+		// a nil schema is rejected unconditionally before its fields are visited
+		nilRejected := false
+		core.EachInstr(fn, func(i ssa.Instruction) {
+			fb, ok := i.(*ssa.Call)
+			if !ok || core.CalleeKey(&fb.Call) != "reflect.Value.FieldByIndex" {
+				return
+			}
+			for _, g := range guardsOf(fb) {
+				if x, k, equal, ok := eqConst(g); ok && k.IsNil() && !equal && isPointer(x.Type()) && c.isPkgNamed(x.Type(), "Schema") {
+					if ifi, ok := g.At.(*ssa.If); ok && (blockReturnsErrorDeep(ifi.Block().Succs[1-g.Succ]) || blockReturnsError(ifi.Block().Succs[1-g.Succ])) {
+						nilRejected = true
+					}
+				}
+			}
+		})
+		c.R.Check(nilRejected, rule, core.FuncName(fn)+":nil-subschema-rejected", c.pos(lk), "a nil subschema is rejected, whatever its position, before its fields are visited", "the fields of a schema are visited without an unconditional test that the schema is not nil (or the test does not return an error): a nil child somewhere in the tree makes Resolve panic")
 		allDom := true
 		for _, r := range rec {
 			if !core.Dominates(mu, r) || !core.Dominates(lk, r) {
